@@ -1028,6 +1028,23 @@ def handleCSerde (ws : List String) : Option String := do
   let (_, flags) := Serde.cserialize (dummyCodec plen zlen) thr pv
   pure s!"ok flags={flags} compressed={if flags &&& 8 ≠ 0 then 1 else 0}"
 
+/-- `deser flags=<n> val=<hex> utf8ok=<0|1> pickleok=<0|1>`: the flag cascade of `python_memcache_deserializer` on a stored item of ANY flags
+(items written by other clients included); whether the bytes decode / unpickle is the harness's input (codecs are parameters of the model) -/
+def handleDeser (ws : List String) : Option String := do
+  let flags ← (← arg ws "flags").toNat?
+  let v ← Bytes.ofHex (← arg ws "val")
+  let u := (← arg ws "utf8ok") = "1"
+  let k := (← arg ws "pickleok") = "1"
+  let c : Serde.Codec := { dummyCodec 0 0 with utf8Dec := fun _ => if u then some [] else none, unpickle := fun _ => if k then some 0 else none }
+  pure (match Serde.deserialize c v flags with
+    | .ok (.val (.bytes b)) => "ok bytes:" ++ Bytes.toHex b
+    | .ok (.val (.str _)) => "ok str"
+    | .ok (.val (.int i)) => s!"ok int:{i}"
+    | .ok (.val (.other _)) => "ok other"
+    | .ok .none_ => "ok None"
+    | .error .decode => "err decode"
+    | .error .valueError => "err value")
+
 /-- `statconv <lim> <key> <hex value>`: the converter `Client.stats` applies to that key, applied to that value -/
 def handleStatConv : List String → Option String
   | [lim, k, v] => do
@@ -1075,6 +1092,7 @@ def handle (ws : List String) : String :=
     | "cserde" :: rest => handleCSerde rest
     | "pool.seq" :: rest => handlePoolSeq rest
     | "statconv" :: rest => handleStatConv rest
+    | "deser" :: rest => handleDeser rest
     | "pool.validate" :: rest => handlePoolValidate rest
     | "pool.validate.timed" :: rest => handlePoolValidateTimed rest
     | _ => none
